@@ -876,6 +876,86 @@ theorem reported_record (n : String) (c : List String) (fl : List String) (fp : 
     · exact Or.inr (Or.inl (Or.inr h))
     · exact Or.inr (Or.inr h)
 
+/-- the signature rules on the methods of an interface -/
+theorem unitViolation_iface_iff (L : List TypeRef) (methods : List Method)
+    (hL : ∀ t ∈ L, primOf m e.file t = specPrim (specEnvOf e reg) ns t)
+    (hsub : ∀ mth ∈ methods, ∀ t ∈ methodTypes mth, t ∈ L) :
+    UnitViolation m ⟨e.file, ns, .iface (methods.map sigOfMethod)⟩ x
+      ↔ ∃ s ∈ methods.map sigOfMethod, x ∈ sigRules (specEnvOf e reg) e.file ns s := by
+  have hag : ∀ mth ∈ methods, ∀ u ∈ sigTypes (sigOfMethod mth), primOf m e.file u = specPrim (specEnvOf e reg) ns u :=
+    fun mth hm u hu => hL u (hsub mth hm u hu)
+  have hU : UnitViolation m ⟨e.file, ns, .iface (methods.map sigOfMethod)⟩ x
+      ↔ ∃ s ∈ methods.map sigOfMethod, SigViolation m e.file s x := Iff.rfl
+  rw [hU]
+  constructor
+  · rintro ⟨s, hs, hx⟩
+    obtain ⟨mth, hm, rfl⟩ := List.mem_map.mp hs
+    exact ⟨_, hs, (mem_sigRules_iff_sigViolation _ m _ _ _ (hag mth hm) x).mpr hx⟩
+  · rintro ⟨s, hs, hx⟩
+    obtain ⟨mth, hm, rfl⟩ := List.mem_map.mp hs
+    exact ⟨_, hs, (mem_sigRules_iff_sigViolation _ m _ _ _ (hag mth hm) x).mp hx⟩
+
+/-- interfaces: references at any depth (methods and properties), signatures of methods and of inline function
+    types, targets, `main` / `static` on C++-only interfaces, `static` with `const` -/
+theorem reported_interface (n : String) (c : List String) (main : Bool) (fl : List String) (fp : Pos)
+    (methods : List Method) (props : List Prop') (pos : Pos)
+    (hb : Binds m reg (walkDecl e ns (.interface n c main fl fp methods props pos)).refs) :
+    Reported m reg (walkDecl e ns (.interface n c main fl fp methods props pos)) x
+      ↔ x ∈ declRules (specEnvOf e reg) e.file ns (.interface n c main fl fp methods props pos) := by
+  have hc := (covers_walkMethods e ns methods).append (covers_walkProps e ns props)
+  have hb' : Binds m reg (walkMethods e ns methods ++ walkProps e ns props).refs := fun r hr => hb r (by
+    simp only [walkDecl, Collected.refs_append, List.mem_append] at hr ⊢; exact Or.inl (Or.inl hr))
+  have hL : ∀ t ∈ methods.flatMap methodTypes ++ props.map (·.ty), primOf m e.file t = specPrim (specEnvOf e reg) ns t :=
+    fun t ht => hc.primOf_eq reg m hb' t ht
+  have hsub : ∀ mth ∈ methods, ∀ t ∈ methodTypes mth, t ∈ methods.flatMap methodTypes ++ props.map (·.ty) :=
+    fun mth hm t ht => List.mem_append_left _ (List.mem_flatMap.mpr ⟨mth, hm, ht⟩)
+  rw [mem_declRules_iff _ _ _ _ (methods.map sigOfMethod) rfl (by intro _ _ _ _ h; cases h)]
+  simp only [walkDecl]
+  rw [reported_append, reported_append, reported_covers hc reg m hb', reported_diagsOnly, reported_reg1,
+    unitViolation_iface_iff e reg m ns x _ methods hL hsub]
+  have htop : topTypes (.interface n c main fl fp methods props pos) = methods.flatMap methodTypes ++ props.map (·.ty) := rfl
+  rw [htop]
+  simp only [List.mem_append, List.append_nil, mem_staticConstDiags_spec, mem_staticDiags_spec,
+    targetDiags_eq_unknownTargets e reg, kindRules]
+  constructor
+  · rintro (((h | h) | ((h | h) | h)) | h)
+    · exact Or.inl h
+    · exact Or.inr (Or.inr (Or.inl (Or.inr h)))
+    · exact Or.inr (Or.inr (Or.inl (Or.inl (Or.inl h))))
+    · exact Or.inr (Or.inr (Or.inl (Or.inl (Or.inr h))))
+    · exact Or.inr (Or.inr (Or.inr h))
+    · exact Or.inr (Or.inl h)
+  · rintro (h | h | (((h | h) | h) | h))
+    · exact Or.inl (Or.inl (Or.inl h))
+    · exact Or.inr h
+    · exact Or.inl (Or.inr (Or.inl (Or.inl h)))
+    · exact Or.inl (Or.inr (Or.inl (Or.inr h)))
+    · exact Or.inl (Or.inl (Or.inr h))
+    · exact Or.inl (Or.inr (Or.inr h))
+
 end kinds
+
+/-- **Per declaration.** For a declaration `d` of any kind, visited in namespace `ns`, and a resolution map that binds
+    every reference of the declaration to what lexical scoping denotes in `reg`: the diagnostics of the front end
+    (visit-time, reference-level, post-resolution) are exactly the specification's `declRules` of `d`, with the same
+    class, rule, file and position. -/
+theorem reported_walkDecl (e : Env) (reg : Registry) (m : Resolved) (ns : List String) (d : Decl)
+    (hb : Binds m reg (walkDecl e ns d).refs) (x : Diag) :
+    Reported m reg (walkDecl e ns d) x ↔ x ∈ declRules (specEnvOf e reg) e.file ns d := by
+  cases d with
+  | enum n c items pos => exact reported_enum e reg m ns x n c items pos
+  | flags n c items pos => exact reported_flags e reg m ns x n c items pos
+  | record n c fl fp fields der pos => exact reported_record e reg m ns x n c fl fp fields der pos hb
+  | interface n c main fl fp methods props pos => exact reported_interface e reg m ns x n c main fl fp methods props pos hb
+  | function n c sig pos => exact reported_function e reg m ns x n c sig pos hb
+  | error n c codes pos => exact reported_error e reg m ns x n c codes pos hb
+
+/-- `reported_walkDecl` with everything spelled out -/
+theorem walkDecl_eq_declRules (env : Env) (reg : Registry) (m : Resolved) (ns : List String) (d : Decl)
+    (hb : ∀ r ∈ (walkDecl env ns d).refs, m.get r.file r.pos = lexicalLookup reg r.ns r.name) :
+    ∀ x, (x ∈ (walkDecl env ns d).diags ∨ (∃ r ∈ (walkDecl env ns d).refs, x ∈ refDiags reg r)
+            ∨ ∃ u ∈ (walkDecl env ns d).units, UnitViolation m u x)
+      ↔ x ∈ declRules { keys := env.keys, defaultDeriving := env.defaultDeriving, reg := reg } env.file ns d :=
+  fun x => reported_walkDecl env reg m ns d hb x
 
 end Pydjinni.Front
